@@ -8,7 +8,7 @@ respath = os.path.join(ROOT, "seeded", "RESULTS.json")
 results = json.load(open(respath)) if os.path.exists(respath) else {}
 have = set(os.path.basename(p)[:-5] for p in glob.glob(os.path.join(ROOT, "tools", "props.d", "C*.json")))
 ALSO = {"revert-F1": ["C10", "C08", "C09"], "revert-F2": ["C09"], "revert-F3": ["C09", "C04"], "revert-F4": ["C09", "C04"],
-        "revert-F5": ["C16", "C11", "C03"], "revert-F7": ["C14", "C19"], "revert-F12": ["C08", "C13", "C09"], "revert-F10": ["C13"],
+        "revert-F5": ["C16", "C11", "C03"], "revert-F7": ["C14"], "revert-F12": ["C08", "C13"], "revert-F10": ["C13"],
         "mut-C11-1": ["C11", "C16"], "mut-C08-1": ["C08", "C13"], "mut-C15-1": ["C15", "C02"], "mut-C07-1": ["C07", "C02"]}
 for n in names:
     d = os.path.join(ROOT, "seeded", n)
